@@ -68,16 +68,19 @@ package lnwire
 //@
 //@ func ErrorEncodeMessage
 //@   props C10
+//@   bounds-safe
 //@   ensures result != nil
 //@   modifies nothing
 //@
 //@ func ErrorWriteMessageType
 //@   props C10
+//@   bounds-safe
 //@   ensures result != nil
 //@   modifies nothing
 //@
 //@ func ErrorPayloadTooLarge
 //@   props C10
+//@   bounds-safe
 //@   ensures result != nil
 //@   modifies nothing
 //@
@@ -131,17 +134,20 @@ package lnwire
 //@ // ---- untrusted extension data is always decoded with the peer-to-peer record size cap
 //@ func (e *ExtraOpaqueData) ValidateTLV
 //@   props C10
+//@   bounds-safe
 //@   site call DecodeWithParsedTypesP2P: assert arg(0) == retn(NewStream, 0) && retn(NewStream, 1) == nil
 //@   site call NewReader: assert e != nil && len(*e) > 0
 //@   ensures result == nil && e != nil && len(*e) > 0 ==> retn(DecodeWithParsedTypesP2P, 1) == nil
 //@
 //@ func DecodeRecordsP2P
 //@   props C10
+//@   bounds-safe
 //@   site call DecodeWithParsedTypesP2P: assert arg(0) == retn(NewStream, 0) && retn(NewStream, 1) == nil && arg(1) == r
 //@   site call NewStream: assert arg(0) == records
 //@
 //@ func (e *ExtraOpaqueData) ExtractRecords
 //@   props C10
+//@   bounds-safe
 //@   site call DecodeRecordsP2P: assert arg(0) == ret(NewReader) && arg(1) == ret(ProduceRecordsSorted)
 //@   site call NewReader: assert arg(0) == *e
 //@   site call ProduceRecordsSorted: assert arg(0) == recordProducers
